@@ -11,8 +11,9 @@ print, dim}.rs` restricted to the constructs of `Proc.SStmt`.
 Program layout (`generate_unresolved`): the main module's statements (top-level DATA first), `Halt` at
 position (u32::MAX, u32::MAX), then every FUNCTION in source order, then every SUB in source order
 (= the order of `SProgram.procs`).  A procedure is
-`Label ":fun:NAME" | ":sub:NAME"` · (FUNCTION only) `AllocateBuiltIn q` (loads the default into A, stores
-nothing) · body · `PopRet`, all four at the position of the implementation (`visit_function`,
+`Label ":fun:NAME" | ":sub:NAME"` · (FUNCTION only) `AllocateBuiltIn q` (loads the default into A; an ordinary
+FUNCTION stores nothing, a STATIC one stores it into its result variable: `VarPathName name; CopyAToVarPath`,
+repair 7b64dfe) · body · `PopRet`, all at the position of the implementation (`visit_function`,
 `visit_sub`, `subprogram_body`).
 
 Call protocol (`generate_sub_call_instructions`, `generate_function_call_instructions`), call at `pos`,
@@ -419,7 +420,7 @@ def reorder (body : SStmt) : SStmt :=
 
 /-- size of a procedure: label, (default result), body, `PopRet` -/
 def sizeProc (d : ProcDecl SStmt) : Nat :=
-  1 + (if d.result.isSome then 1 else 0) + sizeStmt 0 0 d.body + 1
+  1 + (if d.result.isSome then (if d.static then 3 else 1) else 0) + sizeStmt 0 0 d.body + 1
 
 /-- addresses of the procedures' labels (the first one at `off`) and their STATIC flags -/
 def layoutFrom : Nat → List (ProcDecl SStmt) → Layout
@@ -433,8 +434,14 @@ def layout (prog : SProgram) : Layout :=
 def compileProc (lay : Layout) (off : Nat) (d : ProcDecl SStmt) : Code :=
   match d.result with
   | some t =>
-    [(.label (":fun:" ++ d.name), d.pos), (.allocate t, d.pos)] ++ compileStmt lay "" 0 0 (off + 2) d.body ++
-      [(.popRet, d.pos)]
+    if d.static then
+      -- a STATIC function: the default result is also stored into the result variable (repair 7b64dfe; the real
+      -- generator omits the store when a parameter carries the function's own name — the serialiser excludes that)
+      [(.label (":fun:" ++ d.name), d.pos), (.allocate t, d.pos), (.varPath ⟨false, d.resultSlot⟩ t, d.pos),
+       (.copyAToVarPath, d.pos)] ++ compileStmt lay "" 0 0 (off + 4) d.body ++ [(.popRet, d.pos)]
+    else
+      [(.label (":fun:" ++ d.name), d.pos), (.allocate t, d.pos)] ++ compileStmt lay "" 0 0 (off + 2) d.body ++
+        [(.popRet, d.pos)]
   | none =>
     [(.label (":sub:" ++ d.name), d.pos)] ++ compileStmt lay "" 0 0 (off + 1) d.body ++ [(.popRet, d.pos)]
 
